@@ -179,3 +179,55 @@ func RandOpenBody(r *rand.Rand, localID, localAS, remoteAS uint32) []byte {
 	}
 	return body
 }
+
+// PluginCaps generates the capability lists a plugin might return.
+func PluginCaps(r *rand.Rand) []wire.Cap {
+	var caps []wire.Cap
+	n := r.IntN(8)
+	switch r.IntN(10) {
+	case 0:
+		n = 0
+	case 1:
+		n = 20 + r.IntN(21)
+	}
+	target := -1
+	if r.IntN(3) == 0 { // aim at the 255-byte boundary of the parameter
+		target = 243 + r.IntN(14)
+		n = 40
+	}
+	total := 6
+	for i := 0; i < n; i++ {
+		c := wire.Cap{Code: uint8(r.IntN(256))}
+		if r.IntN(10) == 0 {
+			c.Code = 65
+		}
+		l := r.IntN(12)
+		switch r.IntN(20) {
+		case 0:
+			l = 250 + r.IntN(51) // around and above 255
+		case 1:
+			l = 100 + r.IntN(100)
+		case 2:
+			l = 0
+		}
+		if target >= 0 {
+			l = r.IntN(40)
+			if c.Code != 65 && total+2+l > target {
+				l = target - total - 2
+				if l < 0 {
+					break
+				}
+				c.Value = randBytes(r, l)
+				caps = append(caps, c)
+				break
+			}
+		}
+		c.Value = randBytes(r, l)
+		if c.Code != 65 {
+			total += 2 + l
+		}
+		caps = append(caps, c)
+	}
+	return caps
+}
+
